@@ -277,4 +277,46 @@ def atMasterI16 (v0 v1 : Rat) : Int :=
 def advanceAtMaster (v0 v1 : Rat) : Int :=
   otRoundU16 v0 + otRoundI16 ((otRound v1 - otRound v0 : Int) : Rat)
 
+/-! ## 5. Predicates used in the statements of FontcProps/C19.lean -/
+
+/-- where an unchecked fixed-width `+`/`-` overflows (the only source of profile dependence) -/
+def Overflows : Field → Rat → Prop
+  | .pointDelta, v | .tsb, v => ¬ inI16 v.floor
+  | .endPt, v => wrapU16 (cnt v) = 0
+  | .compositeTotal, v => 65535 < cnt v
+  | _, _ => False
+
+instance (f : Field) (v : Rat) : Decidable (Overflows f v) := by
+  cases f <;> unfold Overflows <;> infer_instance
+
+
+/-- the nine fields narrowed by `ot_round()` into an i16 -/
+def isI16Round : Field → Bool
+  | .outlineCoord | .compOffset | .lsb | .kernValue | .anchorCoord | .valueDelta | .gvarDelta | .hvarDelta | .metricI16 => true
+  | _ => false
+
+def isU16Round : Field → Bool
+  | .advance | .metricU16 => true
+  | _ => false
+
+
+/-- all successive differences (starting from `last`) fit an i16 -/
+def DiffsFit : Int → List Int → Prop
+  | _, [] => True
+  | last, x :: xs => inI16 (x - last) ∧ DiffsFit x xs
+
+instance : (last : Int) → (xs : List Int) → Decidable (DiffsFit last xs)
+  | _, [] => isTrue trivial
+  | last, x :: xs => by
+    unfold DiffsFit
+    have := instDecidableDiffsFit x xs
+    infer_instance
+
+
+/-- sum of a list of counts -/
+def listSum : List Int → Int
+  | [] => 0
+  | x :: xs => x + listSum xs
+
+
 end Fontc.Casts
